@@ -482,7 +482,7 @@ fn vertex_boundary_cases() -> Vec<VCase> {
             // destination farther than the origin: origin within, destination decides
             out.push(vcase("tolerance_factor_destination", net.clone(), Some((tol_for(d_d, u, f), Some(u))), query_of(Some(o), Some(dd), &[("name", json!("t"))])));
         }
-        // the boundary itself: tolerance = the distance as the code converts it (vertex matcher rejects at >=)
+        // the boundary itself: tolerance = the distance as the code converts it (matched: d <= tol)
         let exact = DistanceUnit::Meters.convert(&Distance::new(d_o), &unit_of(u)).as_f64();
         out.push(vcase("tolerance_boundary_exact", net.clone(), Some((exact.to_bits(), Some(u))), query_of(Some(o), None, &[])));
         let next = f64::from_bits(exact.to_bits() + 1);
@@ -522,6 +522,48 @@ fn vertex_boundary_cases() -> Vec<VCase> {
         json!({"origin_vertex": 99, "a": 1, "origin_x": -105.0625, "destination_vertex": "x", "origin_y": 39.5625,
                "destination_y": 39.5, "origin_edge": 4, "destination_x": -104.5625, "destination_edge": null, "z": {"origin_vertex": 1}}),
     ));
+    // the tolerance EXACTLY equal to the distance the real haversine returns for the nearest vertex, and its
+    // neighbouring doubles, in Meters (no conversion): a vertex exactly AT the tolerance is matched (d <= tol)
+    for unit in [Some("meters"), None] {
+        for (name, f) in [("equal", 0i64), ("next_up", 1), ("next_down", -1)] {
+            let t_o = ((d_o.to_bits() as i64) + f) as u64;
+            let t_d = ((d_d.to_bits() as i64) + f) as u64;
+            out.push(vcase(&format!("tolerance_exact_meters_{}", name), net.clone(), Some((t_o, unit)), query_of(Some(o), None, &[("name", json!("x"))])));
+            // destination farther than the origin: the origin is within, the destination sits on the boundary
+            out.push(vcase(&format!("tolerance_exact_meters_{}", name), net.clone(), Some((t_d, unit)), query_of(Some(o), Some(dd), &[])));
+        }
+    }
+    // the haversine guards: latitude exactly +-90, longitude exactly +-180 and between 170 and 180 degrees are
+    // valid WGS84 coordinates (query and network vertices); one f32 ulp outside is not
+    for sgn in [1i64, -1] {
+        let pole: Vec<(u64, i64, i64)> = vec![(1, -2880 * sgn, 1440 * sgn), (2, -2872 * sgn, 1432 * sgn), (3, -2800 * sgn, 1400 * sgn), (4, -2760 * sgn, 1380 * sgn), (5, -2790 * sgn, 1440 * sgn)];
+        let cands: Vec<(u64, P)> = pole.iter().map(|(i, x, y)| (*i, (*x, *y))).collect();
+        let qs: Vec<P> = vec![(-2880, 1440), (-2878, 1440), (-2880, 1436), (-2800, 1401), (-2791, 1398), (-2762, 1381), (-2874, 1432), (-2789, 1439)];
+        for (i, q0) in qs.iter().enumerate() {
+            let q = (q0.0 * sgn, q0.1 * sgn);
+            let dq = qs[(i + 3) % qs.len()];
+            let dest = if i % 2 == 1 { Some((dq.0 * sgn, dq.1 * sgn)) } else { None };
+            out.push(vcase("guard_boundary", pole.clone(), None, query_of(Some(q), dest, &[])));
+            let far = [Some(q), dest].into_iter().flatten().map(|p| minimisers(p, &cands).iter().filter_map(|(_, c)| hav(p, *c)).fold(0.0, f64::max)).fold(0.0, f64::max);
+            let unit = UNITS[i % 5];
+            let t = if far == 0.0 { 1.0 } else { far / si_m(unit) * 2.0 };
+            out.push(vcase("guard_boundary_tolerance", pole.clone(), Some((t.to_bits(), Some(unit))), query_of(Some(q), dest, &[])));
+        }
+        // one f32 ulp beyond the guards (not on the grid: the candidates are far apart compared with the rounding)
+        let lat_out = f32::from_bits(90f32.to_bits() + 1) as f64 * sgn as f64;
+        let lon_out = -(f32::from_bits(180f32.to_bits() + 1) as f64) * sgn as f64;
+        let lat_in = f32::from_bits(90f32.to_bits() - 1) as f64 * sgn as f64;
+        let lon_in = -(f32::from_bits(180f32.to_bits() - 1) as f64) * sgn as f64;
+        for (x, y) in [(-179.875 * sgn as f64, lat_out), (lon_out, 89.875 * sgn as f64), (-179.875 * sgn as f64, lat_in), (lon_in, 89.875 * sgn as f64)] {
+            let q = json!({"origin_x": x, "origin_y": y});
+            out.push(vcase("guard_one_ulp", pole.clone(), None, q.clone()));
+            if x.abs() > 180.0 || y.abs() > 90.0 {
+                // (the oracle table is only filled for grid coordinates; outside the range it is never consulted)
+                out.push(vcase("guard_one_ulp", pole.clone(), Some((1e9f64.to_bits(), Some("meters"))), q.clone()));
+                out.push(vcase("guard_one_ulp", pole.clone(), Some((1e9f64.to_bits(), Some("meters"))), json!({"origin_x": -179.875 * sgn as f64, "origin_y": 89.875 * sgn as f64, "destination_x": x, "destination_y": y})));
+            }
+        }
+    }
     // SEQUENCES on one plugin instance: every query is answered on its own
     {
         let mut c = vcase("sequence_destinations", net.clone(), None, query_of(Some(o), Some(dd), &[]));
@@ -1130,6 +1172,47 @@ fn edge_boundary_cases() -> Vec<ECase> {
             let d1 = hav((c0.0 + 1, c0.1 + 1), c0).unwrap();
             out.push(ecase("curved_edges_tolerance", es.clone(), None, None, Some((tol_for(d1, "meters", 2.0), Some("meters"))), query_of(Some((c0.0 + 1, c0.1 + 1)), None, &[])));
             out.push(ecase("curved_edges_tolerance", es.clone(), None, None, Some((tol_for(d1, "feet", 0.5), Some("feet"))), query_of(Some((c0.0 + 1, c0.1 + 1)), None, &[])));
+        }
+    }
+    // the tolerance EXACTLY equal to the distance the real haversine returns for the nearest (admissible) edge, and
+    // its neighbouring doubles, in Meters (no conversion): the edge matcher accepts AT the tolerance (d <= tol)
+    for unit in [Some("meters"), None] {
+        for (name, f) in [("equal", 0i64), ("next_up", 1), ("next_down", -1)] {
+            let t_near = ((d_near.to_bits() as i64) + f) as u64;
+            let t_adm = ((d_adm.to_bits() as i64) + f) as u64;
+            out.push(ecase(&format!("tolerance_exact_meters_{}", name), line.clone(), None, None, Some((t_near, unit)), q0.clone()));
+            out.push(ecase(&format!("tolerance_exact_meters_{}", name), line.clone(), Some(classes.clone()), None, Some((t_adm, unit)), q_rc.clone()));
+            // as destination, the origin exactly on an edge
+            out.push(ecase(&format!("tolerance_exact_meters_{}", name), line.clone(), None, None, Some((t_near, unit)), query_of(Some((-1676, 632)), Some(o), &[])));
+        }
+    }
+    // the haversine guards: latitude exactly +-90, longitude exactly +-180 and between 170 and 180 degrees are
+    // valid (query and edge reference points); one f32 ulp outside is not
+    for sgn in [1i64, -1] {
+        let cents: Vec<P> = vec![(-2880 * sgn, 1440 * sgn), (-2872 * sgn, 1432 * sgn), (-2800 * sgn, 1400 * sgn), (-2760 * sgn, 1380 * sgn), (-2790 * sgn, 1440 * sgn)];
+        let es: Vec<Vec<P>> = cents.iter().enumerate().map(|(i, c)| if i % 2 == 0 { vec![*c, *c] } else { vec![(c.0 - 1, c.1), (c.0 + 1, c.1)] }).collect();
+        let cands: Vec<(u64, P)> = cents.iter().enumerate().map(|(i, c)| (i as u64, *c)).collect();
+        let qs: Vec<P> = vec![(-2880, 1440), (-2878, 1440), (-2880, 1436), (-2800, 1401), (-2791, 1398), (-2762, 1381), (-2874, 1432), (-2789, 1439)];
+        for (i, q0) in qs.iter().enumerate() {
+            let q = (q0.0 * sgn, q0.1 * sgn);
+            let dq = qs[(i + 3) % qs.len()];
+            let dest = if i % 2 == 1 { Some((dq.0 * sgn, dq.1 * sgn)) } else { None };
+            out.push(ecase("guard_boundary", es.clone(), None, None, None, query_of(Some(q), dest, &[])));
+            let far = [Some(q), dest].into_iter().flatten().map(|p| minimisers(p, &cands).iter().filter_map(|(_, c)| hav(p, *c)).fold(0.0, f64::max)).fold(0.0, f64::max);
+            let unit = UNITS[(i + 2) % 5];
+            let t = if far == 0.0 { 1.0 } else { far / si_m(unit) * 2.0 };
+            out.push(ecase("guard_boundary_tolerance", es.clone(), None, None, Some((t.to_bits(), Some(unit))), query_of(Some(q), dest, &[])));
+        }
+        let lat_out = f32::from_bits(90f32.to_bits() + 1) as f64 * sgn as f64;
+        let lon_out = -(f32::from_bits(180f32.to_bits() + 1) as f64) * sgn as f64;
+        let lat_in = f32::from_bits(90f32.to_bits() - 1) as f64 * sgn as f64;
+        let lon_in = -(f32::from_bits(180f32.to_bits() - 1) as f64) * sgn as f64;
+        for (x, y) in [(-179.875 * sgn as f64, lat_out), (lon_out, 89.875 * sgn as f64), (-179.875 * sgn as f64, lat_in), (lon_in, 89.875 * sgn as f64)] {
+            let q = json!({"origin_x": x, "origin_y": y});
+            out.push(ecase("guard_one_ulp", es.clone(), None, None, None, q.clone()));
+            if x.abs() > 180.0 || y.abs() > 90.0 {
+                out.push(ecase("guard_one_ulp", es.clone(), None, None, Some((1e9f64.to_bits(), Some("meters"))), q.clone()));
+            }
         }
     }
     // many inadmissible edges nearer than the only admissible one: the nearest-first scan has to skip them all
